@@ -100,19 +100,17 @@ def simpleEscape (e : Nat) : Option Nat :=
   else if e = 116 then some 9
   else none
 
-/-- reads the characters after the opening quote; `acc` is the decoded prefix (reversed) -/
-def unescapeBody : List Nat → List Nat → Option (List Nat)
-  | [], _ => none                                      -- unterminated
+/-- reads the characters after an opening quote up to the closing quote; returns the decoded string and the
+text after the closing quote -/
+def readStr : List Nat → List Nat → Option (List Nat × List Nat)
+  | [], _ => none
   | c :: rest, acc =>
-    if c = 34 then
-      match rest with
-      | [] => some acc.reverse                         -- the closing quote must end the text
-      | _ :: _ => none
+    if c = 34 then some (acc.reverse, rest)
     else if c = 92 then
       match rest with
       | [] => none
       | e :: rest1 =>
-        if e = 117 then                                -- \uXXXX
+        if e = 117 then
           match rest1 with
           | a :: b :: c :: d :: rest2 =>
             match hex4 a b c d with
@@ -124,23 +122,26 @@ def unescapeBody : List Nat → List Nat → Option (List Nat)
                   match hex4 a2 b2 c2 d2 with
                   | some l =>
                     if 0xDC00 ≤ l ∧ l < 0xE000 then
-                      unescapeBody rest3 ((0x10000 + (u - 0xD800) * 1024 + (l - 0xDC00)) :: acc)
+                      readStr rest3 ((0x10000 + (u - 0xD800) * 1024 + (l - 0xDC00)) :: acc)
                     else none
                   | none => none
                 | _ => none
               else if 0xDC00 ≤ u ∧ u < 0xE000 then none
-              else unescapeBody rest2 (u :: acc)
+              else readStr rest2 (u :: acc)
           | _ => none
         else
           match simpleEscape e with
-          | some v => unescapeBody rest1 (v :: acc)
+          | some v => readStr rest1 (v :: acc)
           | none => none
     else if c < 32 then none
-    else unescapeBody rest (c :: acc)
+    else readStr rest (c :: acc)
 
 def unescapeStr (t : List Nat) : Option (List Nat) :=
   match t with
-  | 34 :: rest => unescapeBody rest []
+  | 34 :: rest =>
+    match readStr rest [] with
+    | some (s, []) => some s                           -- the closing quote must end the text
+    | _ => none
   | _ => none
 
 /-! ### JSON values and the serialiser of include.rs (`serialize`, :1074-1090)
@@ -175,5 +176,99 @@ mutual
     | [] => []
     | (k, v) :: rest => (escapeStr k ++ [58] ++ ser v) :: serFields rest
 end
+
+
+/-! ### the reader: a recursive-descent JSON parser (compact text, as `serialize` writes it; numbers are kept as
+their text) -/
+
+def isNumChar (c : Nat) : Bool :=
+  (decide (48 ≤ c) && decide (c ≤ 57)) || decide (c = 43) || decide (c = 45) || decide (c = 46) || decide (c = 101) || decide (c = 69)
+
+def spanNum : List Nat → List Nat × List Nat
+  | [] => ([], [])
+  | c :: cs => if isNumChar c then ((c :: (spanNum cs).1), (spanNum cs).2) else ([], c :: cs)
+
+mutual
+  def parseVal : Nat → List Nat → Option (J × List Nat)
+    | 0, _ => none
+    | fuel + 1, t =>
+      match t with
+      | [] => none
+      | c :: rest =>
+        if c = 34 then
+          match readStr rest [] with
+          | some (s, r) => some (J.str s, r)
+          | none => none
+        else if c = 91 then
+          match rest with
+          | 93 :: r => some (J.arr [], r)
+          | _ =>
+            match parseItems fuel rest with
+            | some (xs, r) => some (J.arr xs, r)
+            | none => none
+        else if c = 123 then
+          match rest with
+          | 125 :: r => some (J.obj [], r)
+          | _ =>
+            match parseFields fuel rest with
+            | some (xs, r) => some (J.obj xs, r)
+            | none => none
+        else if c = 116 then
+          match rest with
+          | 114 :: 117 :: 101 :: r => some (J.bool true, r)
+          | _ => none
+        else if c = 102 then
+          match rest with
+          | 97 :: 108 :: 115 :: 101 :: r => some (J.bool false, r)
+          | _ => none
+        else if c = 110 then
+          match rest with
+          | 117 :: 108 :: 108 :: r => some (J.null, r)
+          | _ => none
+        else
+          if (spanNum t).1 = [] then none else some (J.num (spanNum t).1, (spanNum t).2)
+  /-- one or more values separated by `,`, up to and including the closing `]` -/
+  def parseItems : Nat → List Nat → Option (List J × List Nat)
+    | 0, _ => none
+    | fuel + 1, t =>
+      match parseVal fuel t with
+      | none => none
+      | some (x, r) =>
+        match r with
+        | 44 :: r2 =>
+          match parseItems fuel r2 with
+          | some (xs, r3) => some (x :: xs, r3)
+          | none => none
+        | 93 :: r2 => some ([x], r2)
+        | _ => none
+  /-- one or more `"key":value` separated by `,`, up to and including the closing `}` -/
+  def parseFields : Nat → List Nat → Option (List (List Nat × J) × List Nat)
+    | 0, _ => none
+    | fuel + 1, t =>
+      match t with
+      | 34 :: t1 =>
+        match readStr t1 [] with
+        | some (k, 58 :: t2) =>
+          match parseVal fuel t2 with
+          | none => none
+          | some (x, r) =>
+            match r with
+            | 44 :: r2 =>
+              match parseFields fuel r2 with
+              | some (xs, r3) => some ((k, x) :: xs, r3)
+              | none => none
+            | 125 :: r2 => some ([(k, x)], r2)
+            | _ => none
+        | _ => none
+      | _ => none
+end
+
+/-- a whole document: one value and nothing after it -/
+def parseJson (t : List Nat) : Option J :=
+  match parseVal (t.length + 1) t with
+  | some (j, []) => some j
+  | _ => none
+
+
 
 end XrayModel.Conv
